@@ -1,5 +1,6 @@
 import CijModel.Wire
 import CijModel.Voigt
+import CijModel.VoigtSrc
 open Lean Cij Cij.Wire
 
 namespace Cij.Ops.C10
@@ -22,6 +23,62 @@ def modulusJson (m : Modulus) : Json :=
     ("long", Json.bool m.isLongitudinal), ("off", Json.bool m.isOffDiagonal), ("shear", Json.bool m.isShear),
     ("calc", Json.str (match m.calcType with | .longitudinal => "LONGITUDINAL" | .offDiagonal => "OFF_DIAGONAL" | .shear => "SHEAR"))]
 
+/-! ### the translated source (`Generated.VoigtSrc.module`) run by the PyLite evaluator -/
+
+open PyLite in
+/-- JSON → PyLite value: null, bool, integer, string, array (= tuple).  Anything else (a float, an object) is outside PyLite. -/
+partial def valOfJson (j : Json) : Except String PyLite.Val :=
+  match j with
+  | .null => .ok .none
+  | .bool b => .ok (.bool b)
+  | .num n => if n.exponent == 0 then .ok (.int n.mantissa) else .error "float argument: outside PyLite"
+  | .str s => .ok (.str (codes s))
+  | .arr a => do let xs ← a.toList.mapM valOfJson; pure (.tuple xs)
+  | .obj _ => .error "object argument: outside PyLite"
+
+open PyLite in
+/-- typed encoding of a PyLite value (the harness encodes the CPython value the same way) -/
+partial def valJson : PyLite.Val → Json
+  | .none => Json.null
+  | .bool b => Json.bool b
+  | .int n => jInt n
+  | .str s => Json.str (Str.toString s)
+  | .tuple xs => Json.mkObj [("t", Json.arr (xs.map valJson).toArray)]
+  | .list xs => Json.mkObj [("l", Json.arr (xs.map valJson).toArray)]
+  | .record c fs => Json.mkObj [("r", Json.str c), ("f", Json.arr (fs.map valJson).toArray)]
+  | .enumv c m => Json.mkObj [("e", Json.str (c ++ "." ++ m))]
+  | .dict _ _ => Json.mkObj [("other", Json.str "dict")]
+  | .set _ => Json.mkObj [("other", Json.str "set")]
+  | .cls c => Json.mkObj [("other", Json.str ("class " ++ c))]
+  | _ => Json.mkObj [("other", Json.str "?")]
+
+open PyLite in
+def resultJson (r : Result Val) : Json :=
+  match r with
+  | .ok v => Json.mkObj [("ok", valJson v)]
+  | .exc k [.str msg] => Json.mkObj [("exc", Json.str k), ("msg", Json.str (Str.toString msg))]
+  | .exc k _ => Json.mkObj [("exc", Json.str k)]
+  | .outOfFuel => Json.mkObj [("out_of_fuel", Json.bool true)]
+  | .unsupported w => Json.mkObj [("unsupported", Json.str w)]
+
+open PyLite in
+/-- call + every view of the result, as the harness canonicalises the CPython object -/
+def srcJson (alias : String) (args : List Val) : Json :=
+  let r := VoigtSrc.srcCall alias args
+  match r with
+  | .ok (.record c fs) =>
+    let v := Val.record c fs
+    let views : List String :=
+      if c == "ModulusRepresentation" then
+        ["s", "v", "standard", "voigt", "multiplicity", "is_longitudinal", "is_off_diagonal", "is_shear", "calc_type", "__repr__"]
+      else ["s", "v", "standard", "voigt", "__repr__"]
+    Json.mkObj (("ok", valJson v) :: views.map fun p => (p, resultJson (VoigtSrc.srcProp c p v)))
+  | _ => resultJson r
+
+def argJson : Arg → Json
+  | .int n => jInt n
+  | .str s => Json.str s
+
 def handle : Handler := fun op j =>
   match op with
   | "c_" => some do
@@ -30,6 +87,20 @@ def handle : Handler := fun op j =>
   | "e_" => some do
       let args ← listOf argOfJson (← field j "args")
       pure (match Strain.create args with | some s => strainJson s | none => Json.str "error")
+  | "c10.src" => some do
+      let fn ← strOfJson (← field j "fn")
+      let args ← listOf valOfJson (← field j "args")
+      pure (srcJson fn args)
+  | "c10.domain" => some do
+      let enc (l : List (List Arg)) : Json := Json.arr (l.map fun a => Json.arr (a.map argJson).toArray).toArray
+      pure (Json.mkObj [("c_", enc VoigtSrc.domainC), ("e_", enc VoigtSrc.domainE)])
+  | "c10.src_vs_model" => some do
+      -- the inputs of the decided domain on which the translated source and the hand-written model differ (kernel-checked to
+      -- be none by `voigt_model_is_source`; when that theorem breaks, this names the inputs)
+      let enc (l : List (List Arg)) : Json := Json.arr (l.map fun a => Json.arr (a.map argJson).toArray).toArray
+      pure (Json.mkObj [("c_", enc ((VoigtSrc.domainC.filter fun a => !VoigtSrc.agreeC a).take 400)),
+                        ("e_", enc ((VoigtSrc.domainE.filter fun a => !VoigtSrc.agreeE a).take 120)),
+                        ("views", Json.arr (((Cij.keys21.map Cij.keyOfVoigt).filter fun k => !VoigtSrc.agreeViewsC k).map modulusJson).toArray)])
   | _ => none
 
 end Cij.Ops.C10
